@@ -27,6 +27,14 @@ CHECKS = [
   "text": _WORKER + " Oracle = executions per scheduling, counter seen per attempt, already_tried+1<=N, next_execution_time==now+policy(k) to "
           "the microsecond, next attempt not before failure+policy(k)-1ms, end state.",
   "note": _MODEL + _SRV},
+ {"property_id": "C05", "level": "exploration", "design_ref": "DESIGN.md §4 C05",
+  "technique": "property-based testing of broker-level delivery timing on a virtual clock (due times at generated sub-second phases) with early/late/visibility oracles, 3 brokers",
+  "text": "Generated due times (past, sub-second, seconds, far future; arbitrary microsecond phase of both `now` and T), delay forms "
+          "(next_execution_time, delay_until, Job.deferred_until), arrival vs consumer-start interleavings; a consumer consumes continuously "
+          "for a 40 s virtual horizon. Oracles: never handed to a NORMAL consumer before T-1ms; delivered within a per-broker bound after T; "
+          "far-future messages stay delayed; visible through the DELAYED category only, reject keeps them delayed. 'never forgotten' is decided "
+          "as 'within the stated bound'.",
+  "note": _MODEL + _SRV + " Open known findings D19a/D19b (RabbitMQ head-of-line blocking of per-message TTL) are excluded by signature."},
  {"property_id": "C06", "level": "exploration", "design_ref": "DESIGN.md §4 C06",
   "technique": "property-based testing of reschedule arithmetic over generated iteration programmes (pinned clock) plus worker-level recurring scenarios on 3 brokers",
   "text": _WORKER + " Parameter-level layer drives the real _prepare_retry/_prepare_reschedule through 2-10 iterations with generated "
